@@ -124,6 +124,29 @@ def layer_rhs1d(ctx, configs=None):
         ok, full = impl.guarded(lambda: [np.array(x, dtype=float).copy() for x in disc.rhs(f)])
         same = ok and all(np.array_equal(a, b_, equal_nan=True) for a, b_ in zip(full, st['res']))
         r.compare_exact('rhs()==stages', dict(cfg=cfg), bool(same), True)
+        # the operator is a function of (configuration, field): other evaluations on the same objects in between do not change it
+        def again():
+            g2 = impl.field.fdata(mod, msh, [np.array(d, dtype=float)[..., ::-1] * 1.5 for d in f.data])
+            with np.errstate(all='ignore'):
+                disc.rhs(g2)
+            md2 = dict(cfg['mesh'])
+            # (a nozzle model object keeps the geometric term of the mesh it was last bound to by fvm(): it serves one live
+            #  discretisation at a time, see DESIGN.md 8.2 O1 -- the second discretisation then uses the same mesh)
+            if cfg['model'] == 'nozzle':
+                pass
+            elif md2['kind'] == 'uni':
+                md2['x0'] = md2.get('x0', 0.0) + 0.75
+            elif md2['kind'] == 'faces':
+                md2['xf'] = [x * 0.5 + 0.25 for x in md2['xf']]
+            msh2 = cfg1d.make_mesh(md2)
+            disc2 = impl.modeldisc.fvm(mod, msh2, cfg1d.make_scheme(cfg['scheme']), numflux=cfg.get('flux'),
+                                       bcL=cfg1d.bc_for_impl(cfg['bcL']), bcR=cfg1d.bc_for_impl(cfg['bcR']))
+            with np.errstate(all='ignore'):
+                disc2.rhs(impl.field.fdata(mod, msh2, [np.array(d, dtype=float).copy() for d in f.data]))
+            return [np.array(x, dtype=float).copy() for x in disc.rhs(f)]
+        ok2, rep = impl.guarded(again)
+        same2 = ok and ok2 and all(np.array_equal(a, b_, equal_nan=True) for a, b_ in zip(full, rep))
+        r.compare_exact('rhs() repeatable after other calls on the same model/discretisation objects', dict(cfg=cfg), bool(same2) if ok else True, True)
         geom = list(mod.geomterm) if cfg['model'] == 'nozzle' else None
         lines.append(cfg1d.model_line(cfg, msh, f, geom))
         cases.append((cfg, st, disc, f, mod.neq))
